@@ -13,14 +13,15 @@ throttle}` joined by a wire; the fetcher is the C08 model, `store_replicated_in_
 * `only_close_holders_heard` — node level, system level (`…_sys`), and for all histories (`…_always`: invariant
   `AllHeard` preserved by every transition, induction over arbitrary operation lists).
 * `advertises_everything` — the periodic list is exactly the index (`…_sys`: what goes on the wire).
-* `immutable_replicates` — advertisement → fetch → reply → store, the copy equals the holder's;
+* `immutable_replicates` — single-record advertisement `[(k, Chunk)]` → fetch → reply → store, the copy equals the holder's;
   `immutable_converge` — liveness: after one fair round every one of the `n` neighbours holds a chunk that any of them held.
 * `mutable_converge_txs` / `mutable_converge_reg` — `n` nodes, whole (multi-key) advertisements, any order of exchanges,
   FETCH_TIMEOUT in the round structure: one fair round leaves every node with the join; ranking function 0 afterwards.
   (`mutable_converge_partial_*` are the earlier two-node single-key versions, kept.)
 * `mutable_converge_partial` — a fair round (a→b, then b→a) makes both hold the merge of a diverging
-  transaction set / register; relies on the F-g repair (`skipHeldSameTypeOnly`). Hypothesis that keeps it `_partial`:
-  the diverging key is the only new key of each advertisement (`OnlyNew`); see the note at the theorem.
+  transaction set / register; relies on the F-g repair (`skipHeldSameTypeOnly`). What keeps it `_partial`: each
+  advertisement is the single-record list for the diverging key (`freshAdv`, `OnlyNew`: fresh-record replication, the
+  fast path); whole-store lists are the round / phase theorems.
 * scratchpads: `ScratchpadsConverge` is false of the code (K-g): `scratchpad_never_fetched`,
   `scratchpad_never_converges_witness`.
 * beyond the FairRound restrictions (`Proofs/ReplicationPhases.lean`): `big_advert_converge_partial_*` — one advertisement
@@ -244,20 +245,21 @@ theorem immutable_accepted (w : World) (b : Nat) (nb : NodeSt) (k : Nat) (choice
   · intro c hc
     simp only [nodeRsp_store, replWrites_chunk_held nb.store k c hk hc]
 
-/-- **Immutable data replicates.** Node `a` holds the chunk `k`, neighbour `b` lacks it, hears `a`, and `k` is the only
-new key of `a`'s advertisement (fresh-record replication; for longer lists C08 `multi_key_takeup` gives queued-or-in-flight).
+/-- **Immutable data replicates.** Node `a` holds the chunk `k`, neighbour `b` lacks it, hears `a`, and `a` sends the
+single-record advertisement `[(k, Chunk)]` (the `Cmd::Replicate` of `replicate_valid_fresh_record`: fresh-record
+replication; whole-store advertisements of any length are `immutable_converge` / `big_advert_replicates_chunk`).
 Then `b` schedules the fetch from `a`, `a` serves its copy, and after the reply `b` holds the same content under `k`. -/
 theorem immutable_replicates (w : World) (a b : Nat) (na nb : NodeSt) (k : Nat) (c1 c2 : List Entry)
     (hk : k % 3 = 0) (hold : na.store.get k = some .chunk) (hlack : nb.store.get k = none)
-    (hheard : heard w b a = true) (honly : OnlyNew w b nb a (indexOf na.store) k 0)
+    (hheard : heard w b a = true) (honly : OnlyNew w b nb a [(k, 0)] k 0)
     (hfly : hasKT nb.fetcher.ogf k 0 = false) :
-    let r := nodeRep w b nb a (indexOf na.store) c1
+    let r := nodeRep w b nb a [(k, 0)] c1
     (∃ e ∈ r.2.ret, e.key = k ∧ e.holder = a) ∧
     serve na k = some .chunk ∧
     (nodeRsp w b r.1 k .chunk c2).1.store.get k = na.store.get k := by
-  obtain ⟨⟨e, he, h1, _, h3⟩, hst⟩ := single_new_scheduled w b a nb (indexOf na.store) k 0 c1 hheard honly hfly
+  obtain ⟨⟨e, he, h1, _, h3⟩, hst⟩ := single_new_scheduled w b a nb [(k, 0)] k 0 c1 hheard honly hfly
   refine ⟨⟨e, he, h1, h3⟩, hold, ?_⟩
-  have hl : (nodeRep w b nb a (indexOf na.store) c1).1.store.get k = none := by rw [hst]; exact hlack
+  have hl : (nodeRep w b nb a [(k, 0)] c1).1.store.get k = none := by rw [hst]; exact hlack
   rw [hold]
   exact ((immutable_accepted w b _ k c2 hk).1 hl).1
 
@@ -516,10 +518,18 @@ example :
 
 /-! ## (4) mutable records converge -/
 
-/-- one directed exchange about key `k`: `src` advertises its whole index to `dst`; if the fetch of `k` from `src` is
-scheduled by that advertisement, `src` serves its copy and `dst` processes the reply -/
+/-- the single-record advertisement `src` sends for its record `k` (`replicate_valid_fresh_record`: one
+`(address, record type)` pair; nothing when it does not hold `k`) -/
+def freshAdv (ns : NodeSt) (k : Nat) : List (Nat × Nat) :=
+  match ns.store.get k with
+  | some c => [(k, tyOf c)]
+  | none => []
+
+/-- one directed exchange about key `k`: `src` advertises its record `k` on its own to `dst` (fresh-record replication,
+a single-record list); if the fetch of `k` from `src` is scheduled by that advertisement, `src` serves its copy and `dst`
+processes the reply. (Whole-store advertisements: `exchangeAll`, the round and phase theorems.) -/
 def exchange (w : World) (src dst : Nat) (ns nd : NodeSt) (k : Nat) (c1 c2 : List Entry) : NodeSt :=
-  let r := nodeRep w dst nd src (indexOf ns.store) c1
+  let r := nodeRep w dst nd src (freshAdv ns k) c1
   if r.2.ret.any (fun e => e.key == k && e.holder == src) then
     match serve ns k with
     | some c => (nodeRsp w dst r.1 k c c2).1
@@ -531,17 +541,17 @@ theorem nodeRep_store (w : World) (i : Nat) (nd : NodeSt) (h : Nat) (keys : List
   unfold nodeRep
   split <;> rfl
 
-/-- what the advertisement must look like for the fetch to be scheduled: if the advertised version differs from the held
-one, it is the only new key and not already in flight -/
+/-- what it takes for the fetch to be scheduled: if the advertised version differs from the held one, the single-record
+advertisement's record is new to the receiver (`OnlyNew`) and that version is not already in flight -/
 def Fetchable (w : World) (src dst : Nat) (ns nd : NodeSt) (k : Nat) (cs cd : Content) : Prop :=
   tyOf cs ≠ tyOf cd →
-    OnlyNew w dst nd src (indexOf ns.store) k (tyOf cs) ∧ hasKT nd.fetcher.ogf k (tyOf cs) = false
+    OnlyNew w dst nd src (freshAdv ns k) k (tyOf cs) ∧ hasKT nd.fetcher.ogf k (tyOf cs) = false
 
 theorem fetched_of_differs (w : World) (src dst : Nat) (ns nd : NodeSt) (k : Nat) (cs cd : Content) (c1 : List Entry)
     (hheard : heard w dst src = true) (hf : Fetchable w src dst ns nd k cs cd) (hne : tyOf cs ≠ tyOf cd) :
-    (nodeRep w dst nd src (indexOf ns.store) c1).2.ret.any (fun e => e.key == k && e.holder == src) = true := by
+    (nodeRep w dst nd src (freshAdv ns k) c1).2.ret.any (fun e => e.key == k && e.holder == src) = true := by
   obtain ⟨ho, hfly⟩ := hf hne
-  obtain ⟨⟨e, he, h1, _, h3⟩, _⟩ := single_new_scheduled w dst src nd (indexOf ns.store) k (tyOf cs) c1 hheard ho hfly
+  obtain ⟨⟨e, he, h1, _, h3⟩, _⟩ := single_new_scheduled w dst src nd (freshAdv ns k) k (tyOf cs) c1 hheard ho hfly
   exact List.any_eq_true.2 ⟨e, he, by simp [h1, h3]⟩
 
 /-- a → b for a transaction set: afterwards `b` holds the union -/
@@ -550,10 +560,10 @@ theorem exchange_txs (w : World) (src dst : Nat) (ns nd : NodeSt) (k : Nat) (ia 
     (hne : ia ≠ []) (hcb : Canon ib)
     (hheard : heard w dst src = true) (hf : Fetchable w src dst ns nd k (.txs ia) (.txs ib)) :
     (exchange w src dst ns nd k c1 c2).store.get k = some (.txs (union ia ib)) := by
-  have hst := nodeRep_store w dst nd src (indexOf ns.store) c1
-  have hfetched : (nodeRsp w dst (nodeRep w dst nd src (indexOf ns.store) c1).1 k (.txs ia) c2).1.store.get k
+  have hst := nodeRep_store w dst nd src (freshAdv ns k) c1
+  have hfetched : (nodeRsp w dst (nodeRep w dst nd src (freshAdv ns k) c1).1 k (.txs ia) c2).1.store.get k
       = some (.txs (union ia ib)) := by
-    have hd' : (nodeRep w dst nd src (indexOf ns.store) c1).1.store.get k = some (.txs ib) := by rw [hst]; exact hd
+    have hd' : (nodeRep w dst nd src (freshAdv ns k) c1).1.store.get k = some (.txs ib) := by rw [hst]; exact hd
     simp only [nodeRsp_store, replWrites_txs _ k ia hk hne ib (Or.inl hd')]
     exact get_put_same _ _ _
   unfold exchange
@@ -576,10 +586,10 @@ theorem exchange_reg (w : World) (src dst : Nat) (ns nd : NodeSt) (k : Nat) (alt
     (hcb : Canon ob)
     (hheard : heard w dst src = true) (hf : Fetchable w src dst ns nd k (.reg alt oa) (.reg alt ob)) :
     (exchange w src dst ns nd k c1 c2).store.get k = some (.reg alt (union oa ob)) := by
-  have hst := nodeRep_store w dst nd src (indexOf ns.store) c1
-  have hfetched : (nodeRsp w dst (nodeRep w dst nd src (indexOf ns.store) c1).1 k (.reg alt oa) c2).1.store.get k
+  have hst := nodeRep_store w dst nd src (freshAdv ns k) c1
+  have hfetched : (nodeRsp w dst (nodeRep w dst nd src (freshAdv ns k) c1).1 k (.reg alt oa) c2).1.store.get k
       = some (.reg alt (union oa ob)) := by
-    have hd' : (nodeRep w dst nd src (indexOf ns.store) c1).1.store.get k = some (.reg alt ob) := by rw [hst]; exact hd
+    have hd' : (nodeRep w dst nd src (freshAdv ns k) c1).1.store.get k = some (.reg alt ob) := by rw [hst]; exact hd
     by_cases hany : (oa.any fun o => !ob.contains o) = true
     · simp only [nodeRsp_store, replWrites_reg_held _ k alt oa ob hk hd', hany, if_true]
       exact get_put_same _ _ _
@@ -613,10 +623,9 @@ theorem union_ne_nil {a b : List Nat} (h : a ≠ []) : union a b ≠ [] := by
 /-- **Transaction sets converge (partial).** Nodes `a`, `b` hear each other and hold the sets `ia`, `ib` under `k`.
 One fair round — `a` advertises, `b` fetches what was scheduled; then `b` advertises, `a` fetches — leaves both with
 `ia ∪ ib`. `Fetchable` (both directions; the second one about `b`'s state after the first exchange) is what keeps this
-`_partial`: the diverging key must be the only new key of the advertisement (fast path) and that version must not
-already be in flight. Not proved: lists with several new keys (C08 `multi_key_takeup` gives queued-or-in-flight, the
-composition with delivery is missing), three or more nodes with the ranking argument, re-establishing the quiet-fetcher
-hypothesis after a round (a register fetch that merges to nothing leaves its in-flight entry until FETCH_TIMEOUT). -/
+`_partial`: each advertisement is the single-record list for `k` (`freshAdv`, the fast path) and that version must not
+already be in flight. Whole-store advertisements with any number of new keys, three or more nodes and the quiet-fetcher
+hypothesis after a round are the subject of `mutable_converge_txs/_reg`, `big_advert_converge_*` and the phase theorems. -/
 theorem mutable_converge_partial_txs (w : World) (a b : Nat) (na nb : NodeSt) (k : Nat) (ia ib : List Nat)
     (c1 c2 c3 c4 : List Entry)
     (hk : k % 3 = 1) (ha : na.store.get k = some (.txs ia)) (hb : nb.store.get k = some (.txs ib))
@@ -1189,15 +1198,22 @@ theorem only_close_holders_heard_always (w : World) (n : Nat) (ops : List Op) :
 /-! ## non-vacuity -/
 
 def naEx : NodeSt := { store := [(0, .chunk), (2, .reg false [0, 1]), (4, .txs [0])] }
-def naEx1 : NodeSt := { store := [(2, .reg false [0, 1])] }
 def nbEx : NodeSt := { store := [(0, .chunk), (2, .reg false [1, 2]), (4, .txs [0])] }
 
-/-- the hypotheses of `mutable_converge_partial_reg` hold for two nodes holding diverging versions of one register, the
-advertiser holding that register only (a single-record list: the fast path) -/
+/-- the hypotheses of `mutable_converge_partial_reg` hold — in BOTH directions (`hf1`, and `hf2` at `b`'s state after the
+first exchange) — for two nodes holding diverging versions of one register next to other records, and the round ends with
+both holding the union -/
 example : heard padWorld 1 0 = true ∧ heard padWorld 0 1 = true ∧
-    OnlyNew padWorld 1 nbEx 0 (indexOf naEx1.store) 2 (tyOf (.reg false [0, 1])) ∧
-    hasKT nbEx.fetcher.ogf 2 (tyOf (.reg false [0, 1])) = false ∧ Canon [0, 1] ∧ Canon [1, 2] := by
-  refine ⟨by decide, by decide, by unfold OnlyNew; decide, by decide, ?_, ?_⟩ <;> simp [Canon]
+    Fetchable padWorld 0 1 naEx nbEx 2 (.reg false [0, 1]) (.reg false [1, 2]) ∧
+    Fetchable padWorld 1 0 (exchange padWorld 0 1 naEx nbEx 2 [⟨2, tyOf (.reg false [0, 1]), 0, 0⟩] []) naEx 2
+      (.reg false [0, 1, 2]) (.reg false [0, 1]) ∧
+    Canon [0, 1] ∧ Canon [1, 2] ∧
+    (exchange padWorld 0 1 naEx nbEx 2 [⟨2, tyOf (.reg false [0, 1]), 0, 0⟩] []).store.get 2 = some (.reg false [0, 1, 2]) := by
+  refine ⟨by decide, by decide, ?_, ?_, ?_, ?_, by decide⟩
+  · intro _; exact ⟨⟨by decide, by decide⟩, by decide⟩
+  · intro _; exact ⟨⟨by decide, by decide⟩, by decide⟩
+  · simp [Canon]
+  · simp [Canon]
 
 /-- the same convergence through the system-level transitions (`step`), message by message: diverging registers and
 transaction sets on two nodes, one round, both end with the unions and an empty wire -/
@@ -1428,10 +1444,13 @@ theorem step_failed_origin (dist : Nat → Nat) (s : SafeNet.Fetcher.State) (op 
   | full k => cases k <;> cases hh
   | age d => cases hh
 
-/-- **Every arrival ends the fetch.** A fetched record `(key, c)` arrives at node `i` (any state, any choice witness).
-If `store_replicated_in_record` returns Ok — the record is stored, merged, or changes nothing at all — then afterwards no
-in-flight and no queued entry of the fetcher carries `(key, record type of the fetched bytes)`, the type the holder
-advertised. If it returns an error and writes nothing, the node is unchanged: that fetch leaves the in-flight set by the
+/-- **An accepted arrival ends the fetch of the SERVED version.** A fetched record `(key, c)` arrives at node `i` (any
+state, any choice witness). If `store_replicated_in_record` returns Ok — the record is stored, merged, or changes nothing
+at all — then afterwards no in-flight and no queued entry of the fetcher carries `(key, record type of the fetched bytes)`.
+That is the type the holder advertised ONLY IF its copy did not change between the advertisement and the serve; an entry
+registered under another advertised type of the same key is removed only when something is written
+(`notify_about_new_put` removes by key) — see `HonestHolderNeverReported`, false: `served_version_differs_witness`,
+K-y-served-version-differs. If it returns an error and writes nothing, the node is unchanged: that fetch leaves the in-flight set by the
 timeout clause (C08 `inflight_leaves_timeout`, `timeout_reports_and_drops`: its holder is reported). -/
 theorem arrived_record_leaves_inflight (w : World) (i : Nat) (nd : NodeSt) (key : Nat) (c : Content) (ch : List Entry) :
     (replOk nd.store key c = true →
@@ -1455,12 +1474,15 @@ theorem arrived_record_leaves_inflight (w : World) (i : Nat) (nd : NodeSt) (key 
     · rw [hw] at hw'; cases hw'
     · rw [hw] at hw'; cases hw'
 
-/-- **An honest holder is never reported for a fetch whose record arrived.** When the fetched record `(key, c)` is accepted
+/-- **A holder is not reported on account of the version it served.** When the fetched record `(key, c)` is accepted
 (`store_replicated_in_record` returns Ok), (1) whoever the arrival step itself reports in `FailedToFetchHolders` has
 ANOTHER fetch — not of `(key, type of the fetched bytes)` — that had timed out before the record arrived, and (2) whoever
-the next operation of the fetcher reports has a timed-out fetch of another `(key, type)` registered: the arrived fetch is
-no longer there to time out. (A holder is reported only for fetches that end by the timeout clause.) -/
-theorem honest_holder_never_reported (w : World) (i : Nat) (nd : NodeSt) (key : Nat) (c : Content) (ch : List Entry)
+the next operation of the fetcher reports has a timed-out fetch of another `(key, type)` registered: no fetch of the served
+version is there to time out. This is NOT "an honest holder is never reported for a fetch whose record arrived": the
+completion notice carries `(key, type of the fetched bytes)`, not the holder, so a fetch registered under the type the
+holder ADVERTISED survives when the holder's copy changed before it was asked and the served copy changes nothing at the
+requester (`HonestHolderNeverReported` is false: `served_version_differs_witness`). -/
+theorem holder_not_reported_for_the_served_version (w : World) (i : Nat) (nd : NodeSt) (key : Nat) (c : Content) (ch : List Entry)
     (hok : replOk nd.store key c = true) :
     (∀ h ∈ (nodeRsp w i nd key c ch).2.1.failed, ∃ o ∈ nd.fetcher.ogf,
       o.holder = h ∧ o.deadline ≤ nd.fetcher.now ∧ ¬(o.key = key ∧ o.ty = tyOf c)) ∧
@@ -1504,6 +1526,38 @@ theorem honest_holder_never_reported (w : World) (i : Nat) (nd : NodeSt) (key : 
   · intro op h hh
     obtain ⟨o, ho, hd, hho⟩ := step_failed_origin (w.kdist i) _ op h hh
     exact ⟨o, ho, hho, hd, ((arrived_record_leaves_inflight w i nd key c ch).1 hok).1 o ho⟩
+
+/-- **The clause at full strength**: a fetch `e` (in flight at node `i`, addressed to holder `e.holder`) whose reply arrives
+— whatever copy `c` of the record the holder serves by then — and is accepted by the requester is over: `e` leaves the
+in-flight set, so that `e.holder` cannot be reported for it. -/
+def HonestHolderNeverReported : Prop :=
+  ∀ (w : World) (i : Nat) (nd : NodeSt) (e : Entry) (c : Content) (ch : List Entry),
+    e ∈ nd.fetcher.ogf → replOk nd.store e.key c = true →
+    e ∉ (nodeRsp w i nd e.key c ch).1.fetcher.ogf
+
+/-- the requester holds register `{0,1}`; holder 0 advertised `{0}` (fetch in flight under that type) -/
+def svFetcher : SafeNet.Fetcher.State := { ogf := [⟨2, tyOf (.reg false [0]), 0, 100⟩], now := 0 }
+def svNode : NodeSt := { store := [(2, .reg false [0, 1])], fetcher := svFetcher }
+
+/-- **It is false of the code (known finding K-y-served-version-differs).** Holder 0's register changed after its
+advertisement (it now serves `{1}`, another content hash); the copy is accepted and changes nothing at the requester, the
+completion notice names `(2, type of {1})`, the fetch registered as `(2, type of {0})` stays — and once FETCH_TIMEOUT has
+passed the next `next_keys_to_fetch` reports the honest, responsive holder 0. (Completing by `(key, holder)` instead of
+`(key, type)` would need a command that carries the holder: `FetchCompleted` and `notify_fetch_early_completed` do not.) -/
+theorem served_version_differs_witness :
+    replOk svNode.store 2 (.reg false [1]) = true ∧
+    (nodeRsp padWorld 1 svNode 2 (.reg false [1]) []).2.1.illegal = false ∧
+    (nodeRsp padWorld 1 svNode 2 (.reg false [1]) []).2.2 = [] ∧
+    (nodeRsp padWorld 1 svNode 2 (.reg false [1]) []).1.fetcher.ogf = [⟨2, tyOf (.reg false [0]), 0, 100⟩] ∧
+    (SafeNet.Fetcher.step (padWorld.kdist 1)
+      (SafeNet.Fetcher.step (padWorld.kdist 1) (nodeRsp padWorld 1 svNode 2 (.reg false [1]) []).1.fetcher (.age 200)).1
+      (.next [])).2.failed = [0] := by
+  decide
+
+theorem honestHolderNeverReported_false : ¬ HonestHolderNeverReported := by
+  intro h
+  have := h padWorld 1 svNode ⟨2, tyOf (.reg false [0]), 0, 100⟩ (.reg false [1]) [] (by decide) (by decide)
+  exact this (by decide)
 
 /-- **The bound**: `n` new keys take at most `n` reply deliveries — every reply strictly decreases
 "outstanding + queued" (`evStep_rsp_measure`), whatever it contains and whatever batch the fetcher returns; all of it inside
@@ -1920,7 +1974,9 @@ example : ValidP meshWorld3 cNodes cPhases ∧ SafeNet.Replication.Abs.Covers 3 
 #print axioms SafeNet.Props.C09.big_advert_no_stall_example
 #print axioms SafeNet.Props.C09.big_advert_rejected_stall_witness
 #print axioms SafeNet.Props.C09.arrived_record_leaves_inflight
-#print axioms SafeNet.Props.C09.honest_holder_never_reported
+#print axioms SafeNet.Props.C09.holder_not_reported_for_the_served_version
+#print axioms SafeNet.Props.C09.served_version_differs_witness
+#print axioms SafeNet.Props.C09.honestHolderNeverReported_false
 #print axioms SafeNet.Replication.cascade_join_accepted
 #print axioms SafeNet.Replication.accepted_phase_room
 #print axioms SafeNet.Props.C09.concurrent_adverts_serial_txs
